@@ -443,7 +443,9 @@ Definition validate (v : pv) : bool :=
 Definition to_cbor (v : pv) : res bytes :=
   if validate v then do c <- dumps (to_prim v); Ok (enc c) else Err E_Type.
 
-(* the dataclass constructor: arity, then __post_init__ (long-bytes guard on direct bytes fields) *)
+(* the dataclass constructor: arity, then __post_init__: the long-bytes guard looks at the VALUE of every field --
+   isinstance(data, bytes) and len(data) > 64 -- whatever the field's declared type is (bytes, Datum, a Union, a
+   Dict[..] annotation, or the unevaluated string of a postponed annotation): `fts` does not occur in the test *)
 Definition mk_obj (id : N) (fts : list ty) (vals : list pv) : res pv :=
   if (length vals <? length fts)%nat then Err E_Type
   else if existsb (fun v => match v with PBytes b => (64 <? length b)%nat | _ => false end) vals
@@ -551,10 +553,19 @@ Fixpoint t_dict (v : pv) : res json :=
   | PTag _ _ => Err E_Type
   end.
 
-(* PlutusData.from_dict of the class (id, fts): _dfs with the field dispatch inlined *)
+(* PlutusData.from_dict of the class (id, fts): _dfs with the field dispatch inlined.
+   `pp` = the class (and every class it mentions) is declared under `from __future__ import annotations` (postponed
+   evaluation of annotations) and ArrayCBORSerializable.from_primitive has not yet run on it: dataclasses.Field.type
+   is then the SOURCE STRING of the annotation.  validate() and from_primitive read typing.get_type_hints and are
+   unaffected; __post_init__ reads f.type only to reject invalid field classes (a string is not a class: nothing is
+   rejected) and applies the long-bytes guard to every field value whatever the declared type; from_dict reads
+   f.type raw: a string is not a class, is not Datum and has no __origin__, so every field is converted by the
+   generic _dfs of the OUTER class -- exactly as a field declared int / bytes / ByteString / IndefiniteList is. *)
 Definition is_cls (t : ty) : bool := match t with TCls _ _ => true | _ => false end.
+Definition atomic_ty (t : ty) : bool := match t with TInt | TBytes | TBStr | TIList => true | _ => false end.
+Definition erase_ty (t : ty) : ty := if atomic_ty t then t else TInt.
 
-Fixpoint t_undict (id : N) (fts : list ty) (j : json) {struct j} : res pv :=
+Fixpoint t_undict (pp : bool) (id : N) (fts : list ty) (j : json) {struct j} : res pv :=
   match j with
   | JCon i fs =>
       if negb (i =? id) then Err E_Deser else
@@ -563,8 +574,8 @@ Fixpoint t_undict (id : N) (fts : list ty) (j : json) {struct j} : res pv :=
            match fs, ts with
            | f :: fr, t :: tr =>
                do v <-
-                 (match t with
-                  | TCls id' fts' => t_undict id' fts' f
+                 (match (if pp then erase_ty t else t) with
+                  | TCls id' fts' => t_undict pp id' fts' f
                   | TDatum => do w <- r_undict f; Ok (PRaw w)
                   | TUnion alts =>
                       match f with
@@ -572,17 +583,19 @@ Fixpoint t_undict (id : N) (fts : list ty) (j : json) {struct j} : res pv :=
                           (fix pick (l : list ty) : res pv :=
                              match l with
                              | [] => Err E_Deser
-                             | TCls idk ftsk :: l' => if idk =? c then t_undict idk ftsk f else pick l'
+                             | TCls idk ftsk :: l' => if idk =? c then t_undict pp idk ftsk f else pick l'
                              | _ :: l' => pick l'
                              end) alts
-                      | _ => match alts with [] => Err E_Deser | _ => Err E_Key end
+                      (* f["constructor"] is evaluated for the first alternative that is a PlutusData class
+                         (KeyError); without such an alternative nothing matches (DeserializeException) *)
+                      | _ => if existsb is_cls alts then Err E_Key else Err E_Deser
                       end
                   | TList t' =>
                       match f with
                       | JList _ =>
                           match t' with
-                          | TCls id' fts' => t_undict id' fts' f
-                          | _ => t_undict id fts f
+                          | TCls id' fts' => t_undict pp id' fts' f
+                          | _ => t_undict pp id fts f
                           end
                       | _ => Err E_Deser
                       end
@@ -590,27 +603,27 @@ Fixpoint t_undict (id : N) (fts : list ty) (j : json) {struct j} : res pv :=
                       match f with
                       | JMap kvs =>
                           do ps <- mapM (fun kv =>
-                                   do k <- (match kt with TCls id' fts' => t_undict id' fts' (fst kv)
-                                                     | _ => t_undict id fts (fst kv) end);
-                                   do w <- (match vt with TCls id' fts' => t_undict id' fts' (snd kv)
-                                                     | _ => t_undict id fts (snd kv) end);
+                                   do k <- (match kt with TCls id' fts' => t_undict pp id' fts' (fst kv)
+                                                     | _ => t_undict pp id fts (fst kv) end);
+                                   do w <- (match vt with TCls id' fts' => t_undict pp id' fts' (snd kv)
+                                                     | _ => t_undict pp id fts (snd kv) end);
                                    if hashable false k then Ok (k, w) else Err E_Type) kvs;
                           Ok (PDict (dict_of_list ps))
                       | _ => Err E_Deser
                       end
-                  | _ => t_undict id fts f
+                  | _ => t_undict pp id fts f
                   end);
                do vs <- go fr tr; Ok (v :: vs)
            | _, _ => Ok []
            end) fs fts;
       mk_obj id fts vals
   | JMap kvs =>
-      do ps <- mapM (fun kv => do k <- t_undict id fts (fst kv); do w <- t_undict id fts (snd kv);
+      do ps <- mapM (fun kv => do k <- t_undict pp id fts (fst kv); do w <- t_undict pp id fts (snd kv);
                                if hashable false k then Ok (k, w) else Err E_Type) kvs;
       Ok (PDict (dict_of_list ps))
   | JInt z => Ok (PInt z)
   | JBytes b => Ok (if (32 <? length b)%nat then PBStr b else PBytes b)
-  | JList xs => do ys <- mapM (t_undict id fts) xs; Ok (PIList ys)
+  | JList xs => do ys <- mapM (t_undict pp id fts) xs; Ok (PIList ys)
   end.
 
 (* ================================================================== abstraction to data *)
